@@ -16,7 +16,9 @@ pub fn order_from_keys(n: usize, keys: &[u8]) -> Vec<usize> {
 }
 
 pub fn apx_label(style: u8, i: usize) -> String {
-    match style % 4 {
+    match style % 5 {
+        // identifiers of 200-700 characters (style 4): longer than any fixed-size buffer or message prefix
+        4 => format!("long_{}_{}", "y".repeat(200 + 37 * (i % 14)), i),
         0 => format!("a{}", i),
         1 => format!("_x{}", i),
         2 => format!("Arg{}_", i),
@@ -55,7 +57,15 @@ pub fn build(case: &GraphCase) -> Built {
     let n = g.n;
     match &case.pres {
         Pres::Direct { offset, order_keys } => {
-            let labels: Vec<usize> = (0..n).map(|i| i + *offset as usize).collect();
+            // offsets 253-255 stand for label ranges that straddle isize::MAX, 2^32 and end at usize::MAX:
+            // labels are opaque to the library, whatever their magnitude
+            let base: usize = match *offset {
+                255 => usize::MAX - n.max(1) + 1,
+                254 => (1usize << 32) - 1 - n / 2,
+                253 => isize::MAX as usize - n / 2,
+                o => o as usize,
+            };
+            let labels: Vec<usize> = (0..n).map(|i| i + base).collect();
             let order = order_from_keys(n, order_keys);
             let decl: Vec<usize> = order.iter().map(|&i| labels[i]).collect();
             let mut af = AAFramework::new_with_argument_set(ArgumentSet::new_with_labels(&decl));
